@@ -987,7 +987,9 @@ class OdeSystem(object):
             
         """
         if t is not None:
-            tf = t
+            # Like t0 and tf of the system, the target of this call is held in the precision of the state: a target handed
+            # over in a higher precision may not be representable on the time grid and could then never be reached
+            tf = D.ar_numpy.asarray(t, **self.__array_con_kwargs)
         else:
             tf = self.tf
 
